@@ -32,17 +32,20 @@ TYPE_RE = re.compile(r'^(u?int\d*|bytes\d+|u?fixed\d+x\d+)$')
 
 
 def rename_identifiers(src, suffix):
-    """append `suffix` to every identifier that is not a keyword / builtin / member name (after '.')"""
+    """append `suffix` to every identifier that is not a keyword / builtin / member name (after '.') and is not
+    directly followed by '(' (function, modifier, event, error names and calls keep their names, so that different
+    items DO share function names - only variable-like names, hence all state-variable names, become item-specific)"""
     toks = sl.lex(src)
     b = src.encode('utf-8')
     out = []
     pos = 0
     prev = None
-    in_asm = 0
-    for kind, text, s, e in toks:
+    for i, (kind, text, s, e) in enumerate(toks):
         out.append(b[pos:s])
         t = text
-        if kind == 'ident' and text not in KEYWORDS and not TYPE_RE.match(text) and prev != '.':
+        nxt = toks[i + 1][1] if i + 1 < len(toks) else None
+        if kind == 'ident' and text not in KEYWORDS and not TYPE_RE.match(text) and prev != '.' and nxt != '(' \
+                and prev not in ('function', 'modifier', 'event', 'error', 'contract', 'library', 'interface', 'struct', 'enum'):
             t = text + suffix
         out.append(t.encode('utf-8'))
         pos = e
@@ -150,7 +153,7 @@ def build_files(ctx):
     rng = random.Random(ctx.seed * 4099 + 19)
     n_random = 60 if ctx.tier == 'quick' else 400
     n_files = 400 if ctx.tier == 'quick' else 3000
-    sources = common.standard_programs(ctx, n_random, n_per_carrier=1, streams=('corpus', 'product', 'random'))
+    sources = common.standard_programs(ctx, n_random, n_per_carrier=1, streams=('corpus', 'product', 'random', 'special'))
     sources = [p for p in sources if len(p['src']) < 6000]
     files = []
     # fixed cases first: the shapes behind the defects D6 / D9 and the corpus of minimised failures
@@ -169,6 +172,11 @@ def build_files(ctx):
         'pragma solidity ^0.8.4;\ncontract E1 { function p(address t, address a) public { IERC20(t).transfer(a, 1); } }\n'
         'library E2 { function q(address t, address a) internal { IERC20(t).approve(a, 1); IERC20(t).transferFrom(a, a, 1); } }\n'
         'function e3(address t) { IERC20(t).transfer(t, 2); }\n',
+        'pragma solidity ^0.8.4;\ncontract G1 { address o1; modifier onlyOwner() { require(msg.sender == o1); _; } function kill() external onlyOwner { selfdestruct(payable(o1)); } }\n'
+        'contract G2 { function kill() external { selfdestruct(payable(address(0))); } fallback() external { selfdestruct(payable(address(0))); } }\n'
+        'contract G3 { address o3; function kill() external { require(msg.sender == o3, "no"); selfdestruct(payable(o3)); } fallback() external { } }\n',
+        'pragma solidity ^0.8.4;\ncontract G2 { function kill() external { selfdestruct(payable(address(0))); } }\n'
+        'contract G1 { address o1; modifier onlyOwner() { require(msg.sender == o1); _; } function kill() external onlyOwner { selfdestruct(payable(o1)); } }\n',
     ]
     for i, s in enumerate(fixed):
         files.append({'gen': 'c19:fixed%d' % i, 'src': s})
